@@ -10,6 +10,19 @@ KEY_ATM = 'block_mapping:target-atm0-source-not-atm0'
 DEFAULT_ATM = [1.013e5, 20.]
 
 
+def identical_copy(spec, geo, repo):
+    """an identical geometry: rebuilt from the recipe, or a deep copy when the recipe contains a
+    column refinement (mulgrid.refine numbers the new columns in set-iteration order, which differs
+    from build to build)."""
+    if any(op[0] == 'refine' for op in spec.get('ops', [])):
+        import sys
+        lim = sys.getrecursionlimit()
+        sys.setrecursionlimit(max(lim, 20000))
+        try: return copy.deepcopy(geo)
+        finally: sys.setrecursionlimit(lim)
+    return G.build_geo(spec, repo)
+
+
 def atm_finding_class(src, dst):
     """the known finding's input class: computed from the pair's atmosphere types only."""
     return G.atm_code(dst) == 0 and G.atm_code(src) != 0
@@ -159,11 +172,13 @@ def state(b):
             None if b.permeability is None else [float(x) for x in np.asarray(b.permeability).ravel()])
 
 
-def explicit_maps(src, dst_spec, repo):
+def explicit_maps(src, dst):
     """block and column mappings for the underground blocks, computed on a copy of the target
     without atmosphere blocks (underground block names do not depend on the atmosphere type)."""
-    d2 = G.build_geo(G.with_atm(dst_spec, 2), repo)
-    return src.block_mapping(d2, True)
+    t = dst.atmosphere_type
+    dst.atmosphere_type = 2             # (the setter rebuilds the block name index)
+    try: return src.block_mapping(dst, True)
+    finally: dst.atmosphere_type = t
 
 
 def check_incon(ctx, case, src, dst, repo, inc=None):
@@ -176,7 +191,7 @@ def check_incon(ctx, case, src, dst, repo, inc=None):
     maps = None
     try:
         if case.get('explicit'):
-            maps = explicit_maps(src, case['dst'], repo)
+            maps = explicit_maps(src, dst)
             new.transfer_from(inc, src, dst, maps[0], maps[1])
         else:
             new.transfer_from(inc, src, dst)
